@@ -11,8 +11,11 @@ from . import obs as obsmod
 from . import tlc
 
 VERIF = os.path.dirname(os.path.dirname(os.path.abspath(__file__)))
-EVIDENCE_DIR = os.path.join(VERIF, "evidence")
-REPLAY_DIR = os.path.join(VERIF, "replays")
+# QUICKADD_OUT: write evidence/ and replays/ somewhere else (side-by-side runs of the seed regression must not overwrite
+# each other's files or the committed evidence); the registered commands do not set it
+_OUT = os.environ.get("QUICKADD_OUT") or VERIF
+EVIDENCE_DIR = os.path.join(_OUT, "evidence")
+REPLAY_DIR = os.path.join(_OUT, "replays")
 KNOWN = os.path.join(VERIF, "KNOWN_FINDINGS.json")
 
 
@@ -78,7 +81,9 @@ class Ctx:
     # ---- R3: judgement of observations by a trace module -------------------------------------
     def judge(self, module, observations, cfg=None, env=None, timeout=1200, workers=2):
         v = obsmod.judge(module, observations, cfg=cfg, env=env, timeout=timeout, workers=workers)
-        self.traces += v.n
+        self.traces += v.n - v.skipped
+        if v.skipped:
+            self.skipped_outside_model = getattr(self, "skipped_outside_model", 0) + v.skipped
         if v.n:
             self.states += v.distinct
             self.transitions += v.generated
@@ -175,6 +180,9 @@ def finish(ctx, check_meta):
         print(ln)
     if len(groups) > 12:
         print("... and %d more violation groups (replay files written under %s)" % (len(groups) - 12, REPLAY_DIR))
+    if getattr(ctx, "skipped_outside_model", 0):
+        ctx.notes.append("OUTSIDE-MODEL: %d observations mention a pattern or rule the frozen RuleTable.tla has no name for (the rule base was "
+                         "extended); they were not judged" % ctx.skipped_outside_model)
     cov = {
         "samples": ctx.samples[:8] or ["(no sample recorded)"],
         "evaluations": int(ctx.evaluations),
